@@ -1077,9 +1077,11 @@ class PandasModelBase(
             del res[scratch_col]
         if null_guard_col is not None:
             del res[null_guard_col]
-        on_a_set = set(op.on_a)
+        # a key pair with the same name on both sides is merged by pandas itself; every other shared column
+        # (also a left key whose name is a non-key column on the right, or vice versa) has a suffixed right copy
+        same_named_keys = set([c_a for c_a, c_b in zip(op.on_a, op.on_b) if c_a == c_b])
         for c in common_cols:
-            if c not in on_a_set:
+            if c not in same_named_keys:
                 is_null = res[c].isnull()
                 if is_null.any():
                     # where() (not .loc assignment) so the column may change dtype, e.g. all-missing float -> bool
